@@ -1,5 +1,5 @@
 \* generation (C16, thorough, exhaustive): every mutation (all operators, punctuator and word
-\* replacements) of all seven seeds and of the minimal valid structure fo{fi}
+\* replacements) of all eight seeds and of the minimal valid structure fo{fi}
 SPECIFICATION Spec
 CONSTANTS
   MaxNodes = 2
@@ -9,7 +9,7 @@ CONSTANTS
   MaxDecor = 0
   DefaultHdr = "lt"
   Seeds <- MCSeeds
-  SeedIdx = {1,2,3,4,5,6,7}
+  SeedIdx = {1,2,3,4,5,6,7,8}
   Puncts <- MCPuncts
   Words <- MCWords
   Brackets <- MCBrackets
